@@ -244,7 +244,8 @@ def t2t_request(i, case):
          proto.enc_bool(case.get('multi')), str(case.get('thresh') if case.get('thresh') is not None else 3),
          proto.enc_bool(bool(repl))]
     f += proto.enc_list(list(repl), lambda l: [proto.enc_str(l)])
-    f += proto.enc_list(sorted(files.items()), lambda e: [proto.enc_str(e[0]), proto.enc_str(e[1])])
+    # a file given by bytes that are not valid text is an unreadable file for the model
+    f += proto.enc_list(sorted((k, v) for k, v in files.items() if isinstance(v, str)), lambda e: [proto.enc_str(e[0]), proto.enc_str(e[1])])
     f += [str(FUEL), proto.enc_str(case['src'])]
     return ('T2T', 't%d' % i, f)
 
@@ -263,7 +264,7 @@ def norm_diags(ds):
     return [(d[0], d[1], re.split(r'[\'"]', d[2])[0]) for d in ds]
 
 def cleveref_used(case):
-    s = case['src'] + ((case.get('opts') or {}).get('defs') or '') + ''.join((case.get('files') or {}).values())
+    s = case['src'] + ((case.get('opts') or {}).get('defs') or '') + ''.join(v for v in (case.get('files') or {}).values() if isinstance(v, str))
     o = case.get('opts') or {}
     return 'cleveref' in s or 'cleveref' in (o.get('pack') or '')
 
